@@ -42,10 +42,10 @@ Scn(id, filters, steps, tags) == [id |-> id, cfg |-> [filters |-> filters], step
 ---------------------------------------------------------------------------
 (* C02: the adversarial token grammar *)
 TokenClass == {"good", "algNone", "hmacWithPublicKey", "foreignKey", "kidMissing", "kidOfOtherKey", "payloadTampered",
-               "sigTampered", "sigStripped", "nestedJws", "garbage", "audAbsent", "audForeign", "audNearMiss",
+               "sigTampered", "sigStripped", "nestedJws", "garbage", "audAbsent", "audForeign", "audNearMiss", "audForeignAzpClient",
                "audArrayWithClient", "nonceAbsent", "nonceForeign", "nonceEmpty", "nonceNonString"}
 BadSig   == {"algNone", "hmacWithPublicKey", "foreignKey", "payloadTampered", "sigTampered", "sigStripped", "nestedJws", "garbage"}
-BadAud   == {"audAbsent", "audForeign", "audNearMiss"}
+BadAud   == {"audAbsent", "audForeign", "audNearMiss", "audForeignAzpClient"}   \* (azp naming the client does not make it an audience)
 BadNonce == {"nonceAbsent", "nonceForeign", "nonceEmpty", "nonceNonString"}
 \* what the property demands; classes in neither set may go either way (kid games with a genuinely valid signature)
 MustReject(cls, path) == cls \in BadSig \cup BadAud \/ (path = "login" /\ cls \in BadNonce)
